@@ -235,6 +235,7 @@ func checkC17(c *Ctx) {
 	checkSplitURL(c, pk)
 	checkResponsePrecedence(c, pk)
 	checkLoopTotality(c, "C17.R7.loop-totality", pk, "codescan", 40, codescanLoopExits)
+	checkCountsUsed(c, "C17.R6.counts-used", pk)
 	checkTypeOfNil(c, "C17.R1.typeof-nil", pk)
 	checkPathRequiredLast(c, "C17.R6.path-required", pk)
 	checkNamePatterns(c, "C17.R4.name-patterns", pk)
@@ -899,6 +900,23 @@ func checkSplitURL(c *Ctx, pk *packages.Package) {
 // codescanLoopExits: the reviewed early exits of the scanner's loops over struct fields, interface
 // methods, packages and spec collections.
 var codescanLoopExits = map[string]string{
+	"codescan.typeIndex.processDecl › loop over ast.Spec #1 › success return #1":                                   " ⇒ a value specification: a declaration holds specifications of one kind, none of the others is a type",
+	"codescan.typeIndex.processDecl › loop over ast.Spec #1 › success return #2":                                   " ⇒ an import specification: same",
+	"codescan.typeIndex.processDecl › loop over ast.Spec #1 › continue #1":                                         "!‹bool› ⇒ no type information for this name (does not happen on a type-checked package); the next specification is looked at",
+	"codescan.typeIndex.processDecl › loop over ast.Spec #1 › continue #2":                                         "!‹bool› ⇒ an alias of an unnamed type (`type ID = string`) declares nothing to describe; the next specification is looked at",
+	"codescan.typeIndex.processDecl › loop over ast.Spec #1 › conditional store #1":                                "‹codescan.node› & modelNode != 0 && ‹*codescan.entityDecl›.HasModelAnnotation() ⇒ models are the declarations annotated swagger:model in a file that has such annotations",
+	"codescan.typeIndex.processDecl › loop over ast.Spec #1 › conditional store #2":                                "‹codescan.node› & parametersNode != 0 && ‹*codescan.entityDecl›.HasParameterAnnotation() ⇒ same for swagger:parameters",
+	"codescan.typeIndex.processDecl › loop over ast.Spec #1 › conditional store #3":                                "‹codescan.node› & responseNode != 0 && ‹*codescan.entityDecl›.HasResponseAnnotation() ⇒ same for swagger:response",
+	"codescan.typeIndex.processPackage › loop over ast.CommentGroup #1 › continue #1":                              "‹codescan.parsedPathContent›.Method == \"\" ⇒ the comment group holds no swagger:operation line",
+	"codescan.typeIndex.processPackage › loop over ast.CommentGroup #1 › continue #2":                              "!shouldAcceptTag(‹codescan.parsedPathContent›.Tags, ‹*codescan.typeIndex›.includeTags, ‹*codescan.typeIndex›.excludeTags) ⇒ left out by --include-tag / --exclude-tag, on request",
+	"codescan.typeIndex.processPackage › loop over ast.CommentGroup #2 › continue #1":                              "‹codescan.parsedPathContent›.Method == \"\" ⇒ the comment group holds no swagger:route line",
+	"codescan.typeIndex.processPackage › loop over ast.CommentGroup #2 › continue #2":                              "!shouldAcceptTag(‹codescan.parsedPathContent›.Tags, ‹*codescan.typeIndex›.includeTags, ‹*codescan.typeIndex›.excludeTags) ⇒ left out by --include-tag / --exclude-tag, on request",
+	"codescan.typeIndex.processPackage › loop over ast.Decl #1 › continue #1":                                      " ⇒ a declaration the parser could not read",
+	"codescan.typeIndex.processPackage › loop over ast.Decl #1 › continue #2":                                      "‹*ast.FuncDecl›.Body == nil ⇒ a function without body declares no local types",
+	"codescan.typeIndex.processPackage › loop over ast.File #1 › conditional store #1":                             "‹codescan.node› & metaNode != 0 ⇒ the file carries a swagger:meta annotation",
+	"codescan.typeIndex.detectNodes › loop over ast.Comment #1 › continue #1":                                      "‹*ast.Comment› == nil ⇒ no comment to read",
+	"codescan.typeIndex.detectNodes › loop over ast.Comment #2 › continue #1":                                      "‹*ast.Comment› == nil ⇒ no comment to read",
+	"codescan.typeIndex.detectNodes › loop over ast.Comment #2 › continue #2":                                      "len(‹[]string›) < 2 ⇒ the line holds no swagger: annotation",
 	"codescan.parameterBuilder.buildFromStruct › loop over types.Struct.NumFields #1 › continue #1":                "‹*types.Var›.Embedded() ⇒ embedded struct: its fields were just collected by the recursive buildFromType call",
 	"codescan.parameterBuilder.buildFromStruct › loop over types.Struct.NumFields #1 › continue #2":                "!‹*types.Var›.Exported() ⇒ unexported field: not part of the parameter set",
 	"codescan.parameterBuilder.buildFromStruct › loop over types.Struct.NumFields #1 › continue #3":                "‹*ast.Field› == nil ⇒ no syntax found for the field (declared in a file that was not parsed): nothing to read annotations from (logged)",
@@ -1423,5 +1441,122 @@ func checkPostDeclsCollected(c *Ctx, rule string, pk *packages.Package) {
 	}
 	if n < 8 {
 		c.Unk(rule, "codescan › local schemaBuilders", "", fmt.Sprintf("%d found", n))
+	}
+}
+
+// checkCountsUsed: a function that counts something (an int result it increments) tells its
+// caller how many; a caller that only asks "is it zero?" treats two, three, … as one — the
+// nesting depth of `[][]T`, the number of levels to build.
+func checkCountsUsed(c *Ctx, rule string, pk *packages.Package) {
+	c.Rule(rule, "the count returned by a counting function is used as a magnitude at its call sites (loop bound, arithmetic, argument), not only compared with a constant", 1)
+	info := pk.TypesInfo
+	// counting functions: named int results incremented in the body
+	counting := map[*types.Func]map[int]string{}
+	for _, fd := range load.AllFuncs(pk) {
+		if fd.Body == nil || fd.Type.Results == nil {
+			continue
+		}
+		fn, _ := info.Defs[fd.Name].(*types.Func)
+		if fn == nil {
+			continue
+		}
+		idx := 0
+		for _, fl := range fd.Type.Results.List {
+			if len(fl.Names) == 0 {
+				idx++
+				continue
+			}
+			for _, nm := range fl.Names {
+				obj := info.Defs[nm]
+				if b, ok := obj.Type().Underlying().(*types.Basic); ok && b.Info()&types.IsInteger != 0 {
+					inc := false
+					ast.Inspect(fd.Body, func(n ast.Node) bool {
+						if ids, ok := n.(*ast.IncDecStmt); ok && ids.Tok == token.INC && identIs(info, ids.X, obj) {
+							inc = true
+						}
+						return true
+					})
+					if inc {
+						if counting[fn] == nil {
+							counting[fn] = map[int]string{}
+						}
+						counting[fn][idx] = nm.Name
+					}
+				}
+				idx++
+			}
+		}
+	}
+	c.Analysed("counting functions (codescan)", len(counting))
+	for _, fd := range load.AllFuncs(pk) {
+		if fd.Body == nil {
+			continue
+		}
+		ast.Inspect(fd.Body, func(n ast.Node) bool {
+			as, ok := n.(*ast.AssignStmt)
+			if !ok || len(as.Rhs) != 1 {
+				return true
+			}
+			call, ok := ast.Unparen(as.Rhs[0]).(*ast.CallExpr)
+			if !ok {
+				return true
+			}
+			fn := goan.Callee(info, call)
+			if fn == nil || counting[fn] == nil {
+				return true
+			}
+			for idx, rname := range counting[fn] {
+				if idx >= len(as.Lhs) {
+					continue
+				}
+				id, ok := as.Lhs[idx].(*ast.Ident)
+				if !ok || id.Name == "_" {
+					continue
+				}
+				obj := info.ObjectOf(id)
+				tests, magnitudes := 0, 0
+				var visit func(n ast.Node, parent ast.Node)
+				parents := map[ast.Node]ast.Node{}
+				ast.Inspect(fd.Body, func(m ast.Node) bool {
+					if m == nil {
+						return true
+					}
+					ast.Inspect(m, func(k ast.Node) bool {
+						if k != nil && k != m {
+							if _, seen := parents[k]; !seen {
+								parents[k] = m
+							}
+						}
+						return k == m
+					})
+					return true
+				})
+				_ = visit
+				ast.Inspect(fd.Body, func(m ast.Node) bool {
+					uid, ok := m.(*ast.Ident)
+					if !ok || info.Uses[uid] != obj {
+						return true
+					}
+					if be, ok := parents[uid].(*ast.BinaryExpr); ok {
+						other := be.Y
+						if ast.Unparen(be.Y) == ast.Expr(uid) {
+							other = be.X
+						}
+						if tv, ok := info.Types[other]; ok && tv.Value != nil {
+							switch be.Op {
+							case token.EQL, token.NEQ, token.GTR, token.LSS, token.GEQ, token.LEQ:
+								tests++
+								return true
+							}
+						}
+					}
+					magnitudes++
+					return true
+				})
+				c.Check(magnitudes > 0, rule, fmt.Sprintf("codescan.%s › %s of %s used as a magnitude", load.FuncName(fd), rname, fn.Name()), c.posOf(pk, as.Pos()), fmt.Sprintf("%d uses as a magnitude, %d tests against a constant", magnitudes, tests),
+					fmt.Sprintf("%s counts %s, and %s only compares the count with a constant (%d tests): every count above the constant is treated alike — `[][]T` is built as `[]T`", fn.Name(), rname, load.FuncName(fd), tests))
+			}
+			return true
+		})
 	}
 }
